@@ -73,6 +73,10 @@ private:
   std::unique_ptr<ManifestParser> subparser_;
   /// Nesting level of this parser in a chain of include/subninja statements.
   int include_depth_ = 0;
+  /// The parser whose include/subninja statement this parser is loading, and
+  /// the (canonicalized) name of the file this parser is working on.
+  const ManifestParser* parent_ = nullptr;
+  std::string filename_;
   std::vector<EvalString> ins_, outs_, validations_;
 };
 
